@@ -4,13 +4,15 @@ or plain values, as JSON trees
     {"k": "coll", "c": i} | {"k": "plain", "pv": n} | {"k": "pstr", "ps": s}
     {"k": "list"|"tuple"|"set"|"iter"|"dc"|"nt", "xs": [...]}
     {"k": "dict"|"odict", "ks": [...], "vs": [...]}
-    after an operation:  {"k": "val", "c": i} | {"k": "lazy", "c": i, "ty": b, "kshape": b, "meta": b}
+    after an operation:  {"k": "val", "c": i} | {"k": "lazy", "c": i, "md": metadata string}
 
 build() turns a tree into the Python object (with real dask collections at the leaves), project() turns
 whatever dask.compute / persist / optimize returned back into a tree: container kinds, order, plain
 leaves; a computed value is recognised by comparing it with the value each collection has when it is
 computed ALONE (the collections of one case have pairwise different values), a collection by computing
-it and comparing type, shape of __dask_keys__ and metadata with the original.  No decision is taken here:
+it; its type, shape of __dask_keys__ and metadata (array: shape / dtype / chunks / name kind; bag:
+npartitions / name kind; dataframe: columns / dtypes / divisions / npartitions; Delayed: declared length and
+what tuple unpacking gives) are recorded as one string to be compared with the original's.  No decision is taken here:
 trees are compared with the export of the specification / decided by TLC."""
 from __future__ import annotations
 
@@ -29,8 +31,12 @@ class DC:
 
 NT = namedtuple("NT", ["a", "b"])
 
-KINDS = ("delayed", "bag", "item", "array", "frame")
-HASHABLE_KINDS = ("delayed",)
+KINDS = ("delayed", "dnout0", "dnout1", "dnout2", "dnout3", "bag", "item", "array", "frame")
+HASHABLE_KINDS = ("delayed", "dnout0", "dnout1", "dnout2", "dnout3")     # Delayed objects (their values are ints / tuples of ints)
+
+
+def _tup(*args):
+    return tuple(args)
 
 
 def _inc(x):
@@ -42,6 +48,10 @@ def make_collection(kind, i):
     import dask
     if kind == "delayed":
         return dask.delayed(operator.add)(10 * i, 1)
+    if kind.startswith("dnout"):
+        # a Delayed with a declared length: delayed(f, nout=n)(...) - len() and tuple unpacking work on it
+        n = int(kind[5:])
+        return dask.delayed(_tup, nout=n)(*[7000000 * i + 100 * n + j for j in range(n)])
     if kind == "bag":
         import dask.bag as db
         return db.from_sequence([200 * i + j for j in range(3)], npartitions=2).map(_inc)
@@ -96,16 +106,36 @@ def keys_shape(keys):
 
 
 def meta_of(coll):
-    """What 'same metadata' means per collection kind (plain data, comparable with ==)."""
+    """What 'same metadata' means per collection kind (plain data, comparable with ==), observed through
+    the public behaviour of the object."""
+    from dask.utils import key_split
     name = type(coll).__module__
     if name.startswith("dask.array"):
-        return ("array", tuple(coll.shape), str(coll.dtype), tuple(map(tuple, coll.chunks)))
+        return ["array", list(coll.shape), str(coll.dtype), [list(c) for c in coll.chunks], key_split(coll.name)]
     if name.startswith("dask.bag"):
-        return ("bag", getattr(coll, "npartitions", None))
+        return ["bag", getattr(coll, "npartitions", None), key_split(getattr(coll, "name", getattr(coll, "key", "")))]
     if name.startswith("dask.dataframe"):
-        return ("frame", type(coll._meta).__name__, str(getattr(coll._meta, "dtype", "")), str(getattr(coll, "name", "")),
-                coll.npartitions, tuple(coll.divisions))
-    return (type(coll).__name__,)
+        m = coll._meta
+        return ["frame", type(m).__name__, str(getattr(m, "dtype", "")), [str(c) for c in getattr(m, "columns", [])],
+                [str(t) for t in getattr(m, "dtypes", [])] if hasattr(m, "columns") else [], str(getattr(coll, "name", "")),
+                coll.npartitions, [str(d) for d in coll.divisions]]
+    if name.startswith("dask.delayed"):
+        # the declared length: len() or "no length"; and what tuple unpacking gives
+        try:
+            length = len(coll)
+        except TypeError:
+            length = "no length"
+        try:
+            parts = len([x for x in coll])
+        except TypeError:
+            parts = "not iterable"
+        return ["delayed", length, parts]
+    return [type(coll).__name__]
+
+
+def md_string(coll):
+    """Type, shape of __dask_keys__ and metadata of a collection as one canonical string."""
+    return json.dumps([type(coll).__name__, keys_shape(coll.__dask_keys__()), meta_of(coll)], sort_keys=True)
 
 
 class Env:
@@ -115,8 +145,7 @@ class Env:
         self.kinds = list(kinds)
         self.colls = [make_collection(k, i + 1) for i, k in enumerate(kinds)]
         self.alone = [c.compute(scheduler="sync") for c in self.colls]
-        self.shapes = [keys_shape(c.__dask_keys__()) for c in self.colls]
-        self.metas = [meta_of(c) for c in self.colls]
+        self.mds = [md_string(c) for c in self.colls]
 
     def fingerprint(self, v):
         hits = [i + 1 for i, a in enumerate(self.alone) if same_value(v, a)]
@@ -165,12 +194,7 @@ def project(o, env):
             v = o.compute(scheduler="sync")
         except Exception as ex:  # noqa: BLE001 - a returned collection that cannot be computed
             return {"k": "broken", "s": "%s: %s" % (type(ex).__name__, str(ex)[:120])}
-        c = env.fingerprint(v)
-        if c == 0:
-            return {"k": "lazy", "c": 0, "ty": False, "kshape": False, "meta": False}
-        orig = env.colls[c - 1]
-        return {"k": "lazy", "c": c, "ty": type(o) is type(orig), "kshape": keys_shape(o.__dask_keys__()) == env.shapes[c - 1],
-                "meta": meta_of(o) == env.metas[c - 1]}
+        return {"k": "lazy", "c": env.fingerprint(v), "md": md_string(o)}
     c = env.fingerprint(o)
     if c:
         return {"k": "val", "c": c}
@@ -203,8 +227,8 @@ def canon(s, lenient=True):
     """Comparison form (Python twin of Canon/Norm of the specifications): sets and dicts lose their order;
     lenient: an untouched collection counts as an equivalent lazy one, an iterator as the list of its items."""
     k = s["k"]
-    if k == "coll" and lenient:
-        return {"k": "lazy", "c": s["c"], "ty": True, "kshape": True, "meta": True}
+    if k in ("coll", "lazy") and lenient:
+        return {"k": "lazy", "c": s["c"]}
     if "xs" in s:
         xs = [canon(x, lenient) for x in s["xs"]]
         if k == "set":
